@@ -8,9 +8,10 @@
 (* C14-C19 are the observer's clauses. All time-sorted traces of            *)
 (* 1..MaxPackets packets with times in {0, 1, 3} are explored.              *)
 (***************************************************************************)
-EXTENDS SimMech, SimObs
+EXTENDS SimMech, SimObs, Json
 
-CONSTANTS MaxPackets, Delay, NC, NS, Budget, ActionAlphabetId, MaxEvents, Cont
+CONSTANTS MaxPackets, Delay, NC, NS, Budget, ActionAlphabetId, MaxEvents, Cont,
+          KeepHist      \* behaviour generation: carry the oracle's answers as a history variable
 
 Traces ==
   {tr \in UNION {[1..k -> [t : {0, 1, 3}, s : BOOLEAN]] : k \in 1..MaxPackets} :
@@ -38,8 +39,8 @@ Oracle(Z, s) ==
   ELSE {f \in [1..NMach(Z, s) -> ActionAlphabet \cup {NoneAct}] :
           Cardinality({i \in 1..NMach(Z, s) : f[i].kind # "None"}) <= Z.left}
 
-VARIABLES Z, o
-vars == <<Z, o>>
+VARIABLES Z, o, hist
+vars == <<Z, o, hist>>
 
 RECURSIVE Fold(_, _)
 Fold(ob, lines) == IF lines = <<>> THEN ob ELSE Fold(SimObsStep(ob, Head(lines)), Tail(lines))
@@ -51,12 +52,24 @@ Init ==
     /\ Z = ZInit(tr, cf, Budget)
     /\ o = SimObsInit([nc |-> NC, ns |-> NS, delay |-> Delay, pps |-> -1, trace |-> tr,
                        max_it |-> 0, start |-> StartOf(tr, Delay)])
+    /\ hist = <<>>
+
+\* the framework hands PaddingSent, TimerBegin and TimerEnd to the machine they name only
+\* (process_event): no other machine can answer them
+Addressed == {"PaddingSent", "TimerBegin", "TimerEnd"}
+Feasible(c) ==
+  (c.kind = "queue" /\ c.ev.e \in Addressed) => \A i \in 1..Len(c.f) : i # c.ev.m + 1 => c.f[i].kind = "None"
 
 Next ==
   \E c \in ZChoices(Z, Oracle) :
     LET r == ZStep(Z, c) IN
+    /\ Feasible(c)
     /\ Z' = r.Z
     /\ o' = Fold(o, r.lines)
+    /\ hist' = IF KeepHist /\ c.kind \in {"blk", "queue"}
+               THEN Append(hist, [s |-> c.s, e |-> IF c.kind = "blk" THEN "BlockingEnd" ELSE c.ev.e,
+                                  m |-> IF c.kind = "blk" THEN -1 ELSE c.ev.m, f |-> c.f])
+               ELSE hist
 
 Spec == Init /\ [][Next]_vars
 
@@ -73,6 +86,9 @@ Inv_C19 == Holds("C19")
 Inv_Log == Holds("LOG")
 \* C14: with no machines, the processed events reproduce the trace
 Inv_C14 == (Z.done /\ NC = 0 /\ NS = 0 /\ Z.nev < MaxEvents) => Reproduces(o.cf, o.evs)
+\* behaviour generation: one line per finished behaviour - the input trace and, per processed
+\* event, what every machine of that side answered (the harness builds machines that answer so)
+Emit == (KeepHist /\ Z.done) => PrintT("SCRIPT|" \o ToJson([trace |-> o.cf.trace, hist |-> hist]))
 \* simulated time never moves backwards (C19)
 TimeMonotone == [][Z'.now >= Z.now]_vars
 =============================================================================
